@@ -12,7 +12,6 @@ only a discard between an establisher and the callee that asserts what it establ
 """
 from ..core import Finding, RuleResult
 from ..facts import AnalysisBroken
-from ..failflow import compute_fail_summaries
 
 PROPS = ("C12", "C03")
 
@@ -43,7 +42,6 @@ def asserted_fields(f):
 def run(P, tier="quick"):
     R = RuleResult("R44", "between a call that establishes a field (and can fail) and a callee that asserts that field, the "
                    "establisher's result is examined", floor=1)
-    S = compute_fail_summaries(P)
     believers = {}
     for f in P.lib_functions():
         for F in asserted_fields(f):
@@ -55,8 +53,8 @@ def run(P, tier="quick"):
     for g in P.lib_functions():
         if g.body is None:
             continue
-        gs = S.get(g.key())
-        if gs is None or not gs.can_fail:
+        # can fail: has a `return -1` / `return NULL`
+        if not any(r.kids and (r.kids[0].strip().cv in (-1, 0) and (r.kids[0].strip().cv == -1 or "*" in g.ret)) for r in g.returns()):
             continue
         for n in g.walk():
             if n.k == "BinaryOperator" and n.op == "=" and n.kids[0].strip().k == "MemberExpr" and \
